@@ -57,7 +57,7 @@ static const size_t CORPUS_N_SMALL[] = {1,  2,  3,  4,  5,  6,  7,  8,  9,  10, 
                                         18, 19, 20, 21, 22, 23, 24, 31, 32, 33, 63, 64, 65};
 static const size_t CORPUS_N_MED[] = {100, 127, 128, 129, 130, 240, 241, 255, 256, 257, 383, 384, 385};
 static const size_t CORPUS_N_LARGE[] = {2287, 2288, 4095, 4096, 4097, 10000, 10001, 20000};
-static const size_t CORPUS_N_HUGE[] = {65535, 65536, 65537};
+static const size_t CORPUS_N_HUGE[] = {65535, 65536, 65537, 67823, 67824, 67825};
 
 enum { SH_CONST, SH_ASC, SH_DESC, SH_SAW, SH_TWOLEVEL, SH_PERM, SH_DUP, SH_KCYCLE, SH_N };
 static const char *CORPUS_SHAPE[SH_N] = {"const", "asc", "desc", "saw7", "twolevel", "perm", "asc+dup", "cycle5"};
@@ -630,6 +630,59 @@ static int corpus_next(corpus_iter *it) {
             snprintf(it->desc, sizeof it->desc, "n=%zu widthclass min=%" PRIu64 " spread=%" PRIu64 " stride=%" PRIu64 " outliers=%d order=%s", n, mn, S,
                      stride, outc, ord ? "scattered" : "ascending");
             strcpy(it->family, "S4");
+            return 1;
+        }
+        case 10: { /* S2f: the lengths between the every-length range and the listed large lengths: 301..4200.
+                    * thorough: every length; quick: every 13th plus the neighbours of every multiple of 128 */
+            const uint64_t LO = it->thorough ? 521 : 301, HI = 4200;
+            const uint64_t per = 2;
+            if (i >= (HI - LO + 1) * per) {
+                it->stage++;
+                it->i = 0;
+                continue;
+            }
+            size_t n = (size_t)(LO + i / per);
+            uint64_t t = i % per;
+            it->i++;
+            if (n > it->maxn) {
+                continue;
+            }
+            if (!it->thorough && !(n % 13 == 2 || n % 128 <= 1 || n % 128 == 127)) {
+                continue;
+            }
+            if (t == 0) {
+                corpus_structured(it, n, SH_PERM, 1, 0, OUT_NONE, 0);
+            } else {
+                corpus_structured(it, n, SH_SAW, 256, 4, OUT_LAST, 3);
+            }
+            strcpy(it->family, "S2f");
+            return 1;
+        }
+        case 11: { /* S2q: the 3-to-4-byte boundary of a tagged element / run count (67823 | 67824) and 2^16, in both tiers:
+                    * one run, ascending, two runs split at the boundary, low-cardinality */
+            static const size_t NQ[5] = {65536, 67823, 67824, 67825, 69000};
+            const uint64_t per = 4;
+            if (i >= 5 * per) {
+                it->stage++;
+                it->i = 0;
+                continue;
+            }
+            size_t n = NQ[i / per];
+            uint64_t t = i % per;
+            it->i++;
+            if (n > it->maxn) {
+                continue;
+            }
+            if (t == 0) {
+                corpus_structured(it, n, SH_CONST, 0, 2, OUT_NONE, 0);
+            } else if (t == 1) {
+                corpus_structured(it, n, SH_ASC, 1, 0, OUT_NONE, 0);
+            } else if (t == 2) {
+                corpus_structured(it, n, SH_CONST, 0, 4, OUT_LAST, 0); /* a run of n-1 and one more value */
+            } else {
+                corpus_structured(it, n, SH_KCYCLE, 3, 0, OUT_NONE, 0);
+            }
+            strcpy(it->family, "S2q");
             return 1;
         }
         default:
